@@ -15,6 +15,8 @@ for m in rows:
     if os.path.exists(lp):
         latest = " — latest run of the quick check: `" + open(lp).read().strip() + "`"
     out.append(f"| {m['id']} | {m['property']} | {m['what']} | {m['needs_to_manifest']} | {m['result']}{latest} |")
-out += ["", f"{sum('DETECTED' in m['result'] for m in rows)} of {len(rows)} detected by the quick check of their property.", ""]
+n_det = sum("DETECTED" in m["result"] for m in rows)
+missed_first = [m["id"] for m in rows if m["result"].startswith("MISSED")]
+out += ["", f"{n_det} of {len(rows)} are detected by the quick check of their property as it stands now; {len(missed_first)} of them ({', '.join(missed_first)}) were missed by the check as first built and led to the strengthening described in their row and in DESIGN.md section 6.", ""]
 open('/verif/seeded/RESULTS.md', 'w').write("\n".join(out))
 print("\n".join(out[-3:]))
